@@ -14,6 +14,7 @@ CONFIGS = {
     "set-set-lossy": dict(modes=("set", "set"), nmsg=(2, 2), eager=False),
     "set-set-3msg-burst-dup": dict(modes=("set", "set"), nmsg=(3, 3), adversary=("dup",), canon="burst"),
     "alloc-set-3msg-burst-dup": dict(modes=("allocate", "set"), nmsg=(3, 2), adversary=("dup",), canon="burst"),
+    "set-set-deferred-getters-burst": dict(modes=("set", "set"), nmsg=(3, 1), delegated=(False, False), auto_get=False, getters=True, canon="burst"),
 }
 
 
@@ -29,6 +30,13 @@ class MsgExplore(Explore):
             got = [e[1] for e in c.ev if e[0] == "message"]
             peer = "AB"[1 - i]
             sent = [b"msg-%s-%d" % (peer.encode(), n) for n in range(sim.api[1 - i]["sent"])]
+            if sim.getters and not c.delegated:
+                # deferred API with explicit get_message() calls: the k-th call's result is the k-th message (results in call order)
+                res = [ent[0][1] for (what, ent, _) in getattr(c, "get_log", []) if what == "get_message" and ent and ent[0][0] == "ok"]
+                pend = [bool(ent) for (what, ent, _) in getattr(c, "get_log", []) if what == "get_message"]
+                if res != sent[:len(res)]:
+                    out.append(("get_message() results are not the peer's messages in call order", "%s got %r, peer sent %r" % (c.name, res, sent)))
+                continue
             if got != sent[:len(got)]:
                 out.append(("received sequence is not a prefix of what the peer sent", "%s got %r, peer sent %r" % (c.name, got, sent)))
             if when == "settled" and not sim.api[i]["closed"] and not sim.api[1 - i]["closed"] and \
